@@ -7,6 +7,7 @@ size > 0 and every parameter set accepted by `WFp` — no bound on lengths.
 -/
 import Rustic.Lemmas.Chunker
 import Rustic.Lemmas.ChunkerRabin
+import Rustic.Lemmas.ChunkerErr
 namespace Rustic.Props.C06
 open Rustic.Chunker
 variable {σ : Type}
@@ -138,6 +139,66 @@ theorem window_is_most_recent_64_bytes_partial (p : Params) (bs : Bytes) (L : Na
     (h64 : p.min + 64 ≤ L) :
     (codeWindowInput p bs L).drop ((codeWindowInput p bs L).length - 64) = (bs.take L).drop (L - 64) :=
   codeWindow_literal p bs L hL h64
+
+/-! ### (9) reader errors (`Model/ChunkerErr.lean`) -/
+
+/-- What the consumer (`for chunk in iter { let chunk = chunk?; … }`) gets from a reader that delivers the first `failAt`
+bytes of `input` — fragmented by `sched` in any way — and then answers with an error other than `Interrupted`:
+the chunks before the first `Err`/`None`, and how the iteration ended. -/
+def chunksOfFailing (r : Roll σ) (p : Params) (bufSize : Nat) (input : Bytes) (failAt : Nat) (sched : List Ev) :
+    List Bytes × Outcome :=
+  runE true r p (input.length + 2) (St.init bufSize (input.take failAt) sched)
+
+/-- (9) A reader error is reported, never swallowed: for every stream, every failure position (also 0 and past the end:
+the error then takes the place of the final `Ok(0)`), every fragmentation schedule and buffer size, the iteration ends with
+`Some(Err)` — not with `None`, which would make a truncated stream look complete — and the chunks yielded before the error
+are exactly the chunks of the delivered bytes up to (at most) the one chunk that the end of the data would have cut; in
+particular their concatenation is a prefix of the stream. -/
+theorem reader_error_is_reported (r : Roll σ) (p : Params) (hp : WFp p) (bufSize : Nat) (hb : 0 < bufSize)
+    (input : Bytes) (failAt : Nat) (sched : List Ev) :
+    (chunksOfFailing r p bufSize input failAt sched).2 = .error ∧
+    (∃ tail, chunksSpec r p (input.take failAt) = (chunksOfFailing r p bufSize input failAt sched).1 ++ tail ∧
+      tail.length ≤ 1) ∧
+    (chunksOfFailing r p bufSize input failAt sched).1.flatten <+: input := by
+  have hinv : (St.init bufSize (input.take failAt) sched).Inv := ⟨hb, fun h => by simp [St.init] at h⟩
+  have hlen : (input.take failAt).length ≤ input.length := by simp [List.length_take]; omega
+  have h := runE_failing_spec r p hp.1 (input.length + 2) (St.init bufSize (input.take failAt) sched) hinv rfl
+    (by simp only [St.init, Src.pending, List.nil_append]; omega)
+  simp only [St.init, Src.pending, List.nil_append] at h
+  obtain ⟨ho, tail, ht, hl⟩ := h
+  refine ⟨ho, ⟨tail, ht, hl⟩, ?_⟩
+  have hf := chunksSpec_flatten r p hp.1 (input.take failAt)
+  rw [ht, List.flatten_append] at hf
+  refine ⟨tail.flatten ++ input.drop failAt, ?_⟩
+  unfold chunksOfFailing
+  simp only [St.init]
+  rw [← List.append_assoc, hf, List.take_append_drop]
+
+/-- (9') … and without a reader error there is none: the same consumer ends with `None` and has all chunks. -/
+theorem no_reader_error_no_error (r : Roll σ) (p : Params) (hp : WFp p) (bufSize : Nat) (hb : 0 < bufSize)
+    (input : Bytes) (sched : List Ev) :
+    runE false r p (input.length + 2) (St.init bufSize input sched) = (chunksSpec r p input, .done) := by
+  have hinv : (St.init bufSize input sched).Inv := ⟨hb, fun h => by simp [St.init] at h⟩
+  have := runE_ok_spec r p hp.1 (input.length + 2) (St.init bufSize input sched) hinv
+    (by simp [St.init, Src.pending])
+  simpa [St.init, Src.pending] using this
+
+/-- (9'') The fixed-size chunker likewise: a failing reader ends the iteration with `Some(Err)` after exactly the full-size
+chunks of the delivered bytes (a partial last chunk is dropped, not yielded as if it were the end of the file). -/
+theorem fixed_reader_error_is_reported (size : Nat) (hs : 0 < size) (input : Bytes) (failAt : Nat) :
+    (fixedRunE true size (input.length + 2) { rest := input.take failAt, finished := false }).2 = .error ∧
+    (∃ tail, fixedSpec size (input.take failAt) =
+        (fixedRunE true size (input.length + 2) { rest := input.take failAt, finished := false }).1 ++ tail ∧ tail.length ≤ 1) ∧
+    (fixedRunE true size (input.length + 2) { rest := input.take failAt, finished := false }).1.flatten <+: input := by
+  have hlen : (input.take failAt).length ≤ input.length := by simp [List.length_take]; omega
+  obtain ⟨ho, tail, ht, hl⟩ := fixedRunE_failing_spec size hs (input.length + 2)
+    { rest := input.take failAt, finished := false } rfl (by simp only; omega)
+  simp only at ht
+  refine ⟨ho, ⟨tail, ht, hl⟩, ?_⟩
+  have hf := fixedSpec_flatten size hs (input.take failAt)
+  rw [ht, List.flatten_append] at hf
+  refine ⟨tail.flatten ++ input.drop failAt, ?_⟩
+  rw [← List.append_assoc, hf, List.take_append_drop]
 
 /-! Non-vacuity: the hypotheses are met by concrete, non-trivial parameter sets (the repository default
 and a tiny one below the 4 KiB buffer and below the 64-byte window). -/
